@@ -75,6 +75,13 @@ def evaluate_bounds(case):
         if not (len(lb) == len(ub) == len(x0) > 0) or bool((lb > ub).any()) or bool((x0 < lb).any()) or bool((x0 > ub).any()):
             out["prop"].append({"what": "get_bounds accepted a malformed box or a start outside it", "key": "",
                                 "detail": {"x0": case["x0"], "bounds": b}})
+        # ... and it is the box the caller gave: every finite bound as given, None / missing bounds infinite
+        if len(lb) == len(ub) == len(x0):
+            want_lb = np.array([-np.inf if (b is None or b[j][0] is None) else float(b[j][0]) for j in range(len(x0))], dtype=float)
+            want_ub = np.array([np.inf if (b is None or b[j][1] is None) else float(b[j][1]) for j in range(len(x0))], dtype=float)
+            if vhex(lb) != vhex(want_lb) or vhex(ub) != vhex(want_ub):
+                out["prop"].append({"what": "get_bounds returns other bounds than the caller gave (points would be kept in a different box)", "key": "",
+                                    "detail": {"x0": case["x0"], "bounds": b, "lb": np.asarray(lb).tolist(), "ub": np.asarray(ub).tolist()}})
         out["tags"].append("bounds_accepted=True")
     except ValueError as e:
         kind = next((k for pat, k in _ERR if pat in str(e)), "other:" + str(e)[:60])
